@@ -199,7 +199,10 @@ class Run(object):
         self.log.add("op", self.step_no, rec["op"], {k: v for k, v in rec.items() if k not in ("op",)})
         if rec["op"] == "state":
             self.cores = build_state(rec["spec"])
-            self.state = self.ttm.TT([c.copy() for c in self.cores])
+            try:
+                self.state = self.ttm.TT([c.copy() for c in self.cores])
+            except Exception as e:
+                self._fail("state-construction", {"exception": repr(e)[:300]})
             if rec["spec"].get("via_sut"):
                 # realistic preparation: scale the state and let the library's own right-orthonormalisation and norm
                 # bring it back (real components); it must again be normalised and right-orthonormal
